@@ -330,9 +330,10 @@ def conformance(env, info, ser, pt, aad, has_zip, apu):
     gen = [d for d in env.draws[:n_draws] if d["source"] in ("ec.generate_private_key", "okp.generate")]
     if len(gen) != 1:
         return rt.why('_roundtrip#31')
-    ze = ice.Opaque("ecdh", frozenset([gen[0]["value"], "r1"]))
+    rk = key.kid or "r1"                          # (the recipient's key: r1, or r2 when an explicit kid named it)
+    ze = ice.Opaque("ecdh", frozenset([gen[0]["value"], rk]))
     if alg.startswith("ECDH-1PU"):
-        zs = ice.Opaque("ecdh", frozenset(["snd", "r1"]))
+        zs = ice.Opaque("ecdh", frozenset(["snd", rk]))
         want_z = ice.Opaque("cat", ze, zs)                      # Z = Ze || Zs
     else:
         want_z = ze
